@@ -1,9 +1,535 @@
 package instr
 
-import "go/ast"
+import (
+	"fmt"
+	"go/ast"
+	"go/token"
+	"go/types"
+	"strconv"
+)
 
-// trackFile inserts happens-before access probes (built with C19).
-func (r *rw) trackFile(f *ast.File) {}
+// Happens-before access probes (DESIGN.md §3.5).
+//
+// For every simple statement, the plain reads and writes of fields of the tracked struct types
+// that the statement performs unconditionally are announced to the monitor by calls inserted in
+// front of the statement:
+//
+//	vrt.R(unsafe.Pointer(&x.f), "file.go:123 Type.f")      vrt.W(…)
+//	vrt.MR(unsafe.Pointer(&x.m), …) / vrt.MW(…)            map contents (index, range, len, delete, assignment)
+//
+// The probe set is deliberately an UNDER-approximation, so that the monitor never reports an access
+// that does not happen: operands that are evaluated conditionally (right operands of && and ||, `if`
+// conditions with an init statement, `else if` / `for` / `case` headers), operands behind a call that
+// may synchronise before they are evaluated, non-addressable operands and operands whose base expression
+// has side effects are not probed. Fields of sync / sync/atomic types are never plain accesses.
 
 // DefaultTrack is the tracking set of DESIGN.md §3.5.
-func DefaultTrack() *TrackSpec { return &TrackSpec{Types: map[string]bool{}, Maps: map[string]bool{}} }
+func DefaultTrack() *TrackSpec {
+	t := &TrackSpec{Types: map[string]bool{}, Maps: map[string]bool{}}
+	for _, n := range []string{"Entry", "MetaData", "Flag", "Shard", "Store", "LoadingStore", "TinyLfu", "Slru", "List", "TimerWheel",
+		"CountMinSketch", "PolicyBuffers", "call", "Group", "RBMutex", "Clock", "SecondaryCacheItem"} {
+		t.Types[n] = true
+	}
+	t.Maps["Shard.hashmap"] = true
+	t.Maps["Group.m"] = true
+	return t
+}
+
+type probe struct {
+	fn   string // R, W, MR, MW
+	expr ast.Expr
+	site string
+}
+
+type tracker struct {
+	r      *rw
+	fields map[*types.Var]string // origin field var -> "Type.field"
+	maps   map[*types.Var]bool
+}
+
+func (r *rw) trackFile(f *ast.File) {
+	if r.info == nil || r.track == nil {
+		return
+	}
+	tk := &tracker{r: r, fields: map[*types.Var]string{}, maps: map[*types.Var]bool{}}
+	// collect the field objects of the tracked named struct types declared in this package
+	seen := map[*types.Package]bool{}
+	for _, obj := range r.info.Defs {
+		if obj == nil || obj.Pkg() == nil || seen[obj.Pkg()] {
+			continue
+		}
+		seen[obj.Pkg()] = true
+		sc := obj.Pkg().Scope()
+		for _, name := range sc.Names() {
+			tn, ok := sc.Lookup(name).(*types.TypeName)
+			if !ok || !r.track.Types[name] {
+				continue
+			}
+			st, ok := tn.Type().Underlying().(*types.Struct)
+			if !ok {
+				continue
+			}
+			for i := 0; i < st.NumFields(); i++ {
+				fv := st.Field(i)
+				if syncType(fv.Type()) {
+					continue
+				}
+				tk.fields[fv] = name + "." + fv.Name()
+				if r.track.Maps[name+"."+fv.Name()] {
+					tk.maps[fv] = true
+				}
+			}
+		}
+	}
+	if len(tk.fields) == 0 {
+		return
+	}
+	for _, d := range f.Decls {
+		if fd, ok := d.(*ast.FuncDecl); ok && fd.Body != nil {
+			tk.block(fd.Body)
+		}
+	}
+}
+
+func syncType(t types.Type) bool {
+	for {
+		if p, ok := t.(*types.Pointer); ok {
+			t = p.Elem()
+			continue
+		}
+		break
+	}
+	if n, ok := t.(*types.Named); ok && n.Obj().Pkg() != nil {
+		switch n.Obj().Pkg().Path() {
+		case "sync", "sync/atomic":
+			return true
+		}
+	}
+	if a, ok := t.(*types.Array); ok {
+		return syncType(a.Elem())
+	}
+	return false
+}
+
+// block instruments the statements of a block in place.
+func (tk *tracker) block(b *ast.BlockStmt) {
+	if b == nil {
+		return
+	}
+	b.List = tk.list(b.List)
+}
+
+func (tk *tracker) list(in []ast.Stmt) []ast.Stmt {
+	var out []ast.Stmt
+	for _, s := range in {
+		ps := tk.stmt(s, true)
+		for _, p := range ps {
+			out = append(out, tk.emit(p))
+		}
+		out = append(out, s)
+	}
+	return out
+}
+
+func (tk *tracker) emit(p probe) ast.Stmt {
+	tk.r.usedVrt, tk.r.usedUns = true, true
+	tk.r.stats["probe:"+p.fn]++
+	addr := &ast.UnaryExpr{Op: token.AND, X: p.expr}
+	return &ast.ExprStmt{X: call(sel("vrt", p.fn),
+		call(sel("unsafe", "Pointer"), addr),
+		&ast.BasicLit{Kind: token.STRING, Value: strconv.Quote(p.site)})}
+}
+
+// stmt returns the probes to put in front of s and instruments nested blocks.
+// top tells whether a statement can be put in front of s (false for else-if).
+func (tk *tracker) stmt(s ast.Stmt, top bool) []probe {
+	var ps []probe
+	add := func(p []probe) {
+		if top {
+			ps = append(ps, p...)
+		}
+	}
+	switch x := s.(type) {
+	case *ast.BlockStmt:
+		tk.block(x)
+	case *ast.LabeledStmt:
+		// a probe in front of the label is executed on fall-through only; keep it simple: inner blocks only
+		tk.stmt(x.Stmt, false)
+	case *ast.ExprStmt:
+		add(tk.reads(x.X))
+	case *ast.SendStmt:
+		add(tk.reads(x.Chan))
+		add(tk.reads(x.Value))
+	case *ast.IncDecStmt:
+		add(tk.reads(x.X))
+		add(tk.writes(x.X))
+	case *ast.AssignStmt:
+		if tk.calls(x) > 1 {
+			tk.funcLits(x)
+			break
+		}
+		for _, e := range x.Rhs {
+			add(tk.reads(e))
+		}
+		for _, e := range x.Lhs {
+			if x.Tok != token.ASSIGN && x.Tok != token.DEFINE {
+				add(tk.reads(e)) // op-assignment reads the target too
+			}
+			add(tk.writes(e))
+		}
+		tk.funcLits(x)
+	case *ast.ReturnStmt:
+		if tk.calls(x) <= 1 {
+			for _, e := range x.Results {
+				add(tk.reads(e))
+			}
+		}
+		tk.funcLits(x)
+	case *ast.DeferStmt:
+		add(tk.callOperands(x.Call))
+		tk.funcLits(x)
+	case *ast.GoStmt:
+		add(tk.callOperands(x.Call))
+		tk.funcLits(x)
+	case *ast.IfStmt:
+		if x.Init == nil {
+			add(tk.reads(x.Cond))
+		} else {
+			add(tk.stmtNoBlocks(x.Init))
+		}
+		tk.block(x.Body)
+		switch e := x.Else.(type) {
+		case *ast.BlockStmt:
+			tk.block(e)
+		case *ast.IfStmt:
+			tk.stmt(e, false)
+		}
+	case *ast.ForStmt:
+		tk.block(x.Body)
+	case *ast.RangeStmt:
+		add(tk.reads(x.X))
+		if ms := tk.mapOf(x.X); ms != nil {
+			add([]probe{*ms})
+		}
+		tk.block(x.Body)
+	case *ast.SwitchStmt:
+		if x.Init == nil && x.Tag != nil {
+			add(tk.reads(x.Tag))
+		}
+		for _, c := range x.Body.List {
+			cc := c.(*ast.CaseClause)
+			cc.Body = tk.list(cc.Body)
+		}
+	case *ast.TypeSwitchStmt:
+		for _, c := range x.Body.List {
+			cc := c.(*ast.CaseClause)
+			cc.Body = tk.list(cc.Body)
+		}
+	case *ast.SelectStmt:
+		for _, c := range x.Body.List {
+			cc := c.(*ast.CommClause)
+			cc.Body = tk.list(cc.Body)
+		}
+	case *ast.DeclStmt:
+		if gd, ok := x.Decl.(*ast.GenDecl); ok && tk.calls(x) <= 1 {
+			for _, sp := range gd.Specs {
+				if vs, ok := sp.(*ast.ValueSpec); ok {
+					for _, v := range vs.Values {
+						add(tk.reads(v))
+					}
+				}
+			}
+		}
+		tk.funcLits(x)
+	}
+	return ps
+}
+
+func (tk *tracker) stmtNoBlocks(s ast.Stmt) []probe {
+	switch s.(type) {
+	case *ast.AssignStmt, *ast.ExprStmt, *ast.IncDecStmt:
+		return tk.stmt(s, true)
+	}
+	return nil
+}
+
+// funcLits instruments the bodies of function literals inside n.
+func (tk *tracker) funcLits(n ast.Node) {
+	ast.Inspect(n, func(c ast.Node) bool {
+		if fl, ok := c.(*ast.FuncLit); ok {
+			tk.block(fl.Body)
+			return false
+		}
+		return true
+	})
+}
+
+// calls counts the call expressions of a statement that are not builtins / conversions /
+// function literals' bodies: with more than one, the evaluation order of the remaining operands
+// relative to the calls is not fixed, and the statement is left alone.
+func (tk *tracker) calls(n ast.Node) int {
+	c := 0
+	ast.Inspect(n, func(x ast.Node) bool {
+		switch e := x.(type) {
+		case *ast.FuncLit:
+			return false
+		case *ast.CallExpr:
+			if !tk.pureCall(e) {
+				c++
+			}
+		}
+		return true
+	})
+	return c
+}
+
+func (tk *tracker) pureCall(e *ast.CallExpr) bool {
+	if tv, ok := tk.r.info.Types[e.Fun]; ok && tv.IsType() {
+		return true // conversion
+	}
+	if id, ok := unparen(e.Fun).(*ast.Ident); ok {
+		if _, b := tk.r.info.Uses[id].(*types.Builtin); b {
+			return true
+		}
+	}
+	return false
+}
+
+// callOperands: receiver chain and arguments of a deferred / spawned call are evaluated now.
+func (tk *tracker) callOperands(c *ast.CallExpr) []probe {
+	if tk.calls(c) > 1 {
+		return nil
+	}
+	return tk.reads(c)
+}
+
+// side-effect free base expressions only
+func (tk *tracker) pure(e ast.Expr) bool {
+	switch x := e.(type) {
+	case *ast.Ident:
+		return true
+	case *ast.BasicLit:
+		return true
+	case *ast.ParenExpr:
+		return tk.pure(x.X)
+	case *ast.SelectorExpr:
+		return tk.pure(x.X)
+	case *ast.StarExpr:
+		return tk.pure(x.X)
+	case *ast.IndexExpr:
+		return tk.pure(x.X) && tk.pure(x.Index)
+	case *ast.BinaryExpr:
+		return tk.pure(x.X) && tk.pure(x.Y)
+	case *ast.UnaryExpr:
+		return x.Op != token.ARROW && tk.pure(x.X)
+	case *ast.CallExpr:
+		if tk.pureCall(x) {
+			for _, a := range x.Args {
+				if !tk.pure(a) {
+					return false
+				}
+			}
+			return true
+		}
+	}
+	return false
+}
+
+func (tk *tracker) fieldOf(s *ast.SelectorExpr) (*types.Var, string) {
+	selx, ok := tk.r.info.Selections[s]
+	if !ok || selx.Kind() != types.FieldVal {
+		return nil, ""
+	}
+	fv, ok := selx.Obj().(*types.Var)
+	if !ok {
+		return nil, ""
+	}
+	o := fv.Origin()
+	if name, ok := tk.fields[o]; ok {
+		return o, name
+	}
+	return nil, ""
+}
+
+func (tk *tracker) site(e ast.Expr, name, kind string) string {
+	p := tk.r.fset.Position(e.Pos())
+	return fmt.Sprintf("%s:%d %s %s", tk.r.file, p.Line, name, kind)
+}
+
+func (tk *tracker) addressable(e ast.Expr) bool {
+	tv, ok := tk.r.info.Types[e]
+	return ok && tv.Addressable()
+}
+
+func refLike(t types.Type) bool {
+	switch t.Underlying().(type) {
+	case *types.Pointer, *types.Map, *types.Chan, *types.Slice, *types.Interface, *types.Signature:
+		return true
+	}
+	return false
+}
+
+// reads collects the unconditional plain reads in expression e (evaluated as an rvalue).
+func (tk *tracker) reads(e ast.Expr) []probe {
+	var ps []probe
+	tk.walk(e, true, &ps)
+	return ps
+}
+
+// walk visits e; asValue says whether e's own value is loaded (false: only its address is formed).
+func (tk *tracker) walk(e ast.Expr, asValue bool, ps *[]probe) {
+	switch x := e.(type) {
+	case nil:
+	case *ast.ParenExpr:
+		tk.walk(x.X, asValue, ps)
+	case *ast.SelectorExpr:
+		if fv, name := tk.fieldOf(x); fv != nil {
+			if asValue && tk.pure(x.X) && tk.addressable(x) {
+				*ps = append(*ps, probe{"R", x, tk.site(x, name, "read")})
+			}
+			// the base: a struct value embedded in its parent is only address arithmetic
+			tk.walkBase(x.X, ps)
+			return
+		}
+		if _, isSel := tk.r.info.Selections[x]; isSel {
+			tk.walkBase(x.X, ps)
+			return
+		}
+		// qualified identifier (pkg.Name)
+	case *ast.StarExpr:
+		tk.walk(x.X, true, ps)
+	case *ast.UnaryExpr:
+		if x.Op == token.AND {
+			tk.walk(x.X, false, ps) // address taken: the operand itself is not loaded
+			return
+		}
+		tk.walk(x.X, true, ps)
+	case *ast.BinaryExpr:
+		tk.walk(x.X, true, ps)
+		if x.Op == token.LAND || x.Op == token.LOR {
+			return // right operand is conditional
+		}
+		tk.walk(x.Y, true, ps)
+	case *ast.IndexExpr:
+		if m := tk.mapOf(x.X); m != nil && asValue {
+			*ps = append(*ps, *m)
+		}
+		tk.walk(x.X, true, ps)
+		tk.walk(x.Index, true, ps)
+	case *ast.SliceExpr:
+		tk.walk(x.X, true, ps)
+		tk.walk(x.Low, true, ps)
+		tk.walk(x.High, true, ps)
+	case *ast.TypeAssertExpr:
+		tk.walk(x.X, true, ps)
+	case *ast.CompositeLit:
+		for _, el := range x.Elts {
+			if kv, ok := el.(*ast.KeyValueExpr); ok {
+				tk.walk(kv.Value, true, ps)
+			} else {
+				tk.walk(el, true, ps)
+			}
+		}
+	case *ast.KeyValueExpr:
+		tk.walk(x.Value, true, ps)
+	case *ast.CallExpr:
+		if tk.pureCall(x) {
+			if id, ok := unparen(x.Fun).(*ast.Ident); ok && len(x.Args) > 0 {
+				switch id.Name {
+				case "len":
+					if m := tk.mapOf(x.Args[0]); m != nil {
+						*ps = append(*ps, *m)
+					}
+				case "delete":
+					if m := tk.mapOf(x.Args[0]); m != nil {
+						w := *m
+						w.fn = "MW"
+						*ps = append(*ps, w)
+					}
+				}
+			}
+			for _, a := range x.Args {
+				tk.walk(a, true, ps)
+			}
+			return
+		}
+		// method call: the receiver expression is loaded only if it is reference-like
+		if fs, ok := unparen(x.Fun).(*ast.SelectorExpr); ok {
+			if selx, ok := tk.r.info.Selections[fs]; ok && selx.Kind() == types.MethodVal {
+				rt := tk.r.info.Types[fs.X].Type
+				tk.walk(fs.X, rt != nil && refLike(rt), ps)
+			} else {
+				tk.walk(x.Fun, true, ps)
+			}
+		} else {
+			tk.walk(x.Fun, true, ps)
+		}
+		for _, a := range x.Args {
+			tk.walk(a, true, ps)
+		}
+	case *ast.FuncLit:
+		// body instrumented separately
+	}
+}
+
+// walkBase handles the X of X.f: if X denotes a struct VALUE (not a pointer), forming &X.f loads nothing
+// of X itself; if X is a pointer, the pointer is loaded.
+func (tk *tracker) walkBase(x ast.Expr, ps *[]probe) {
+	t := tk.r.info.Types[x].Type
+	if t == nil {
+		return
+	}
+	if _, isPtr := t.Underlying().(*types.Pointer); isPtr {
+		tk.walk(x, true, ps)
+		return
+	}
+	tk.walk(x, false, ps)
+}
+
+// mapOf returns the map-content probe for e if e is a tracked map field.
+func (tk *tracker) mapOf(e ast.Expr) *probe {
+	s, ok := unparen(e).(*ast.SelectorExpr)
+	if !ok {
+		return nil
+	}
+	fv, name := tk.fieldOf(s)
+	if fv == nil || !tk.maps[fv] || !tk.pure(s.X) || !tk.addressable(s) {
+		return nil
+	}
+	return &probe{"MR", s, tk.site(s, name, "map-read")}
+}
+
+// writes collects the plain writes performed by assigning to e.
+func (tk *tracker) writes(e ast.Expr) []probe {
+	var ps []probe
+	switch x := unparen(e).(type) {
+	case *ast.SelectorExpr:
+		if fv, name := tk.fieldOf(x); fv != nil {
+			if tk.pure(x.X) && tk.addressable(x) {
+				ps = append(ps, probe{"W", x, tk.site(x, name, "write")})
+				if tk.maps[fv] {
+					ps = append(ps, probe{"MW", x, tk.site(x, name, "map-replace")})
+				}
+			}
+			tk.walkBase(x.X, &ps)
+			return ps
+		}
+		tk.walkBase(x.X, &ps)
+	case *ast.IndexExpr:
+		if m := tk.mapOf(x.X); m != nil {
+			w := *m
+			w.fn, w.site = "MW", tk.site(x.X, "", "map-write")
+			if s, ok := unparen(x.X).(*ast.SelectorExpr); ok {
+				if _, name := tk.fieldOf(s); name != "" {
+					w.site = tk.site(x.X, name, "map-write")
+				}
+			}
+			ps = append(ps, w)
+		}
+		tk.walk(x.X, true, &ps)
+		tk.walk(x.Index, true, &ps)
+	case *ast.StarExpr:
+		tk.walk(x.X, true, &ps)
+	}
+	return ps
+}
